@@ -890,6 +890,33 @@ def nconcat2(src, log):
         log.append("N7 [a, b].concat() -> vx_concat2(a, b)")
 
 
+def n16_option_map(src, log):
+    """`OPT.map(|P| { BODY })`  ->  `match OPT { Some(P) => Some({ BODY }), None => None }`  and the same for a
+    non-block closure body (definition of Option::map; needed where the closure captures a `&mut`, which Verus closures
+    cannot).  Applied only to receivers that are a plain identifier."""
+    while True:
+        toks = lex(src)
+        hit = None
+        for c in find_closures(src, toks):
+            b0, b1, st, en, blk = c
+            # `IDENT . map (` directly in front of the closure, closure is the only argument
+            if b0 >= 4 and toks[b0 - 1].text == "(" and toks[b0 - 2].text == "map" and toks[b0 - 3].text == "." \
+                    and toks[b0 - 4].kind == "ident" and not (b0 >= 5 and toks[b0 - 5].text in (".", "::")):
+                o = b0 - 1
+                cl = toks[o].mate
+                if cl != en + 1:
+                    continue
+                if b1 != b0 + 2 or toks[b0 + 1].kind != "ident":
+                    continue
+                hit = (b0 - 4, cl, toks[b0 - 4].text, toks[b0 + 1].text, src[toks[st].start:toks[en].end])
+                break
+        if hit is None:
+            return src
+        i, cl, recv, param, body = hit
+        src = src[:toks[i].start] + f"match {recv} {{ Some({param}) => Some({body}), None => None }}" + src[toks[cl].end:]
+        log.append(f"N16 {recv}.map(|{param}| ..) -> match on the Option")
+
+
 def nctxdata(src, log):
     """`let D = R.get_ctxdata(); .. D.f ..` -> `.. R.get_ctxdata().f ..` (the local is an alias of the `&mut ContextData`
     the accessor returns; inlining the alias lets the reduced Context replace the accessor by its field)"""
@@ -1018,6 +1045,8 @@ def normalise(src, rules, log, ctx=None):
             src = n9g_match_guard_general(src, log)
         elif r == "n13":
             src = n13_inline_emit_node(src, log, ctx.get("n13_def"))
+        elif r == "n16":
+            src = n16_option_map(src, log)
         elif r == "nctxdata":
             src = nctxdata(src, log)
         elif r == "nblockpushat":
